@@ -96,6 +96,61 @@ pub fn run(tier: Tier, replay: Option<Value>) -> ! {
                 }
             }
         }
+        // the KIND of failing command: the programs above fail through a function (`ko n`); here every `ko`
+        // leaf is replaced by a command that fails directly — builtin, external, assignment whose command
+        // substitution fails (the status comes from the substitution), subshell, (( )), [[ ]] — with no command
+        // between it and whatever failed before it in an exempt position
+        const KO_KINDS: &[(&str, &str)] = &[
+            ("builtin", "false"),
+            ("external", "vfalse"),
+            ("assign-cmdsub", "x=$(false)"),
+            ("assign-cmdsub-exit", "x=$(exit 1)"),
+            ("subshell", "(exit 1)"),
+            ("arith", "((0))"),
+            ("cond", "[[ a == b ]]"),
+            ("local-assign-cmdsub", "kl"),
+        ];
+        for p in progs.iter().filter(|p| g::size(p) <= tier.pick(3, 4)) {
+            let mut t = vec![];
+            g::tags(p, &mut t);
+            if !t.iter().any(|x| x == "leaf:ko") {
+                continue;
+            }
+            for w in 0..WRAPPERS.len() {
+                if tier == Tier::Quick && w >= 7 {
+                    continue;
+                }
+                let body = wrap(p, w);
+                for (kn, ktext) in KO_KINDS {
+                    // replace every `ko <n>` (a rendered failing leaf) by the direct failing command
+                    let mut out = String::new();
+                    let mut rest = body.as_str();
+                    while let Some(pos) = rest.find("ko ") {
+                        let boundary = pos == 0 || !rest.as_bytes()[pos - 1].is_ascii_alphanumeric();
+                        let digits = rest[pos + 3..].chars().take_while(|c| c.is_ascii_digit()).count();
+                        if boundary && digits > 0 {
+                            out.push_str(&rest[..pos]);
+                            out.push_str(ktext);
+                            rest = &rest[pos + 3 + digits..];
+                        } else {
+                            out.push_str(&rest[..pos + 3]);
+                            rest = &rest[pos + 3..];
+                        }
+                    }
+                    out.push_str(rest);
+                    for o in [0usize, 5, 6] {
+                        if o >= OPTSETS.len() {
+                            continue;
+                        }
+                        let mut tags = t.clone();
+                        tags.push(format!("wrap:{}", WRAPPERS[w].0));
+                        tags.push(format!("opts:{}", OPTSETS[o].0));
+                        tags.push(format!("ko-kind:{kn}"));
+                        cases.push(Case { script: format!("{}kl() {{ local y=$(false); }}\n{}{}", g::PRELUDE, OPTSETS[o].1, out), tags });
+                    }
+                }
+            }
+        }
         // toggles inside functions and subshells
         let toggles = vec![S::Leaf(0), S::Leaf(1), S::Ctl("set +e", None), S::Ctl("set -e", None)];
         for p in g::up_to(3, &toggles) {
